@@ -105,7 +105,8 @@ def run(args):
     npairs = 10 if args.tier == 'quick' else 150
     for i in range(npairs):
         t, b = next(gen)
-        sps = spx.opaque_spellings(t) + [(f'rgba({t[0]}, {t[1]}, {t[2]}, 0.6)', 'hex'), ((t[0], t[1], t[2], 0.4), 'hex'), ('not a colour', None)]
+        sps = spx.opaque_spellings(t) + [(f'rgba({t[0]}, {t[1]}, {t[2]}, 0.6)', 'hex'), ((t[0], t[1], t[2], 0.4), 'hex'), ('not a colour', None),
+               (f'rgba({t[0]}, {t[1]}, {t[2]}, 40)', 'hex'), ((t[0], t[1], t[2], 60), 'hex'), (f'rgba({t[0]}, {t[1]}, {t[2]}, 50%)', 'hex')]
         for k, (sp, kind) in enumerate(sps):
             if (i + k) % 3 == 0 or args.tier == 'thorough': jobs.append((sp, b, bool(i & 1), (i + k) % 3, bool((i + k) & 2)))
     with mp.get_context('fork').Pool(16) as pool:
